@@ -6,6 +6,7 @@ import random
 import re
 import sys
 import threading
+import time
 
 from .. import base, clock
 from ..acc import Acc
@@ -14,8 +15,12 @@ LEVEL = "exploration"
 RULE = ("size-parameterised input families (nesting of every bracket/call/lambda/ternary/dict/comprehension/subprocess/block form, long chains and "
         "lists, and invalid variants that force the second diagnostic pass) are parsed at doubling sizes with a counting Tokenizer subclass passed "
         "to the public constructor; violation = ops(F(2n)) > 2.3*ops(F(n)) at two consecutive doublings (ops = getnext+peek+reset calls, well above "
-        "start-up cost); a case = (family, variant, size); distinct non-trivial = distinct cases with >= 16 tokens that completed")
-ASSUMPTIONS = ["run in a thread with a 1 GB stack and a raised recursion limit so that depth is limited by work, not by RecursionError",
+        "start-up cost); a case = (family, variant, size); distinct non-trivial = distinct cases with >= 16 tokens that completed. "
+        "Work inside C calls makes no steps and no token reads, so 12 tokenizer families (long multi-line strings, a quote left open followed by n "
+        "tokens, n combining marks, n backticks, ...) are timed: CPU time of generate_tokens, best of three, more than tripling at two consecutive "
+        "doublings with >= 0.15 s on the clock is a violation; 2 file families count the lines parse_file reads from the file (<= 4n + 20)")
+ASSUMPTIONS = ["the timed families use process CPU time of a single-threaded worker (not wall-clock time); a quadratic scan quadruples per doubling, a linear one doubles, and the threshold sits at 3 with a floor of 0.15 s",
+               "run in a thread with a 1 GB stack and a raised recursion limit so that depth is limited by work, not by RecursionError",
                "the ratio test is scale-free: a slower but linear implementation does not trip it"]
 
 RATIO = 2.3
@@ -321,8 +326,175 @@ def run_family(acc, name, variant, sizes):
             acc.violation("superlinear-work", case, detail)
 
 
+# --- tokenizer / file-reading time (the part of "no input family takes quadratic time" that the step counter cannot see) --------------------
+# Work done inside C calls (copying a growing string, a regular expression that scans to the end of the line again and again) makes no
+# Python-level steps and no token reads. The only observable is CPU time: process CPU time of this single-threaded worker, the best of three
+# runs, compared at doubling sizes. A doubling that multiplies the time by more than TIME_RATIO twice in a row, with at least TIME_FLOOR
+# seconds on the clock, is reported; a family whose largest size runs in less than TIME_FLOOR is plainly not quadratic at that size.
+TIME_RATIO = 3.0
+TIME_FLOOR = 0.15
+
+TIME_FAMILIES = {
+    "long_triple_string": lambda n: "x = '''\n" + ("a" * 39 + "\n") * (4 * n) + "'''\n",
+    "long_fstring": lambda n: "x = f'''\n" + ("{a} text text text text\n") * n + "'''\n",
+    "long_bytes_continued": lambda n: "x = b'" + ("abc\\\n") * (4 * n) + "'\n",
+    "string_in_with_macro": lambda n: "with! c:\n    s = '''\n" + ("    line of text\n") * (4 * n) + "    '''\nz = 1\n",
+    "unclosed_quote_then_tokens": lambda n: "x = '" + "a+" * n + "a\n",
+    "unclosed_quote_in_macro": lambda n: "f!(it's " + "a " * n + ")\n'\n",
+    "combining_marks": lambda n: "x" + "\u0301" * (4 * n) + " = 1\n",
+    "long_flat_line": lambda n: "x = " + "a + " * n + "a\n",
+    "many_short_lines": lambda n: "x = 1\n" * n,
+    "escaped_backticks_in_macro": lambda n: "f!(`" + "\\`" * n + ")\n",
+    "long_comment_lines": lambda n: ("# " + "c" * 60 + "\n") * n,
+    "deep_continuation": lambda n: "x = 1 + \\\n" * n + "1\n",
+}
+TIME_FILE_FAMILIES = {
+    "debug_fields_in_file": lambda n: "x = f'{a=}'\n" * n,
+    "errors_text_in_file": lambda n: "x = 1\n" * n + "y = = 2\n",
+}
+# finding F18e: the search-path pattern scans to the end of the line from every backtick
+TIME_KNOWN = {"escaped_backticks_in_macro": "F18e"}
+
+
+def _cpu(fn):
+    best = None
+    for _ in range(3):
+        t0 = time.process_time()
+        try:
+            fn()
+        except BaseException:  # noqa: BLE001  (TokenError / SyntaxError outcomes are fine: only the time is observed)
+            pass
+        dt = time.process_time() - t0
+        best = dt if best is None else min(best, dt)
+    return best
+
+
+class _CountingFile:
+    def __init__(self, f, counter):
+        self._f, self._c = f, counter
+
+    def __enter__(self):
+        self._f.__enter__()
+        return self
+
+    def __exit__(self, *a):
+        return self._f.__exit__(*a)
+
+    def __iter__(self):
+        for line in self._f:
+            self._c[0] += 1
+            yield line
+
+    def readline(self, *a):
+        self._c[0] += 1
+        return self._f.readline(*a)
+
+    def read(self, *a):
+        data = self._f.read(*a)
+        self._c[0] += data.count("\n") + 1
+        return data
+
+    def readlines(self, *a):
+        data = self._f.readlines(*a)
+        self._c[0] += len(data)
+        return data
+
+    def __getattr__(self, k):
+        return getattr(self._f, k)
+
+
+def run_file_family(acc, name, sizes):
+    """parse_file on files of n lines: the number of lines read from the file must stay within a small multiple of n"""
+    import builtins
+    import pathlib
+    import tempfile
+
+    import peg_parser.subheader as sh
+    import peg_parser.tokenizer as tk
+
+    cls = base.load_repo()
+    counter = [0]
+
+    def spy(file, *a, **k):
+        return _CountingFile(builtins.open(file, *a, **k), counter)
+
+    series = []
+    sh.open = tk.open = spy
+    try:
+        for n in [max(50, x // 10) for x in sizes]:
+            src = TIME_FILE_FAMILIES[name](n)
+            with tempfile.TemporaryDirectory(prefix="xv_c18_") as d:
+                p = pathlib.Path(d) / "t.xsh"
+                p.write_text(src, encoding="utf-8")
+                counter[0] = 0
+                try:
+                    cls.parse_file(p)
+                except SyntaxError:
+                    pass
+            acc.evals += 1
+            acc.count("file_runs")
+            acc.nontrivial(base.h64("file", name, n))
+            series.append((n, counter[0]))
+    finally:
+        del sh.open, tk.open
+    acc.seen("file_line_reads", f"{name}: " + ", ".join(f"{n}->{c}" for n, c in series))
+    if not any(c for _, c in series):
+        acc.inconc("the open() spy saw no file reads", {"time_family": name})
+    for n, c in series:
+        if c > 4 * n + 20:
+            acc.violation("file-lines-read-superlinear", {"time_family": name, "sizes": sizes}, {"series_n_lines_read": series})
+            break
+
+
+def run_time_family(acc, name, sizes):
+    from peg_parser.tokenize import generate_tokens
+
+    cls = base.load_repo()
+    series = []
+    for n in sizes:
+        if name in TIME_FAMILIES:
+            src = TIME_FAMILIES[name](n)
+            t = _cpu(lambda: sum(1 for _ in generate_tokens(src)))
+        else:
+            # file families have a logical observable: how many lines the parser reads from the file (a spy on the two modules' open())
+            return run_file_family(acc, name, sizes)
+        acc.evals += 1
+        acc.count("timed_runs")
+        acc.nontrivial(base.h64("time", name, n))
+        series.append((n, round(t, 4)))
+        if t > 20:
+            break  # enough to judge; larger sizes would only burn time
+    bad = 0
+    worst = 0.0
+    viol = False
+    for (n1, t1), (n2, t2) in zip(series, series[1:]):
+        if t2 < TIME_FLOOR or t1 <= 0:
+            bad = 0
+            continue
+        r = t2 / t1
+        worst = max(worst, r)
+        bad = bad + 1 if r > TIME_RATIO else 0
+        if bad >= 2:
+            viol = True
+    acc.seen("time_series", f"{name}: " + ", ".join(f"{n}->{t}s" for n, t in series))
+    acc.maxi("max_cpu_ms", int(1000 * max(t for _, t in series)))
+    if viol:
+        case = {"time_family": name, "sizes": [n for n, _ in series]}
+        if name in TIME_KNOWN:
+            acc.finding(TIME_KNOWN[name], f"{name} {series[-3:]}")
+        else:
+            acc.violation("superlinear-cpu-time", case, {"series_n_seconds": series, "worst_ratio": round(worst, 2)})
+
+
 def run_shard(shard):
     acc = Acc()
+    if "replay" in shard and "time_family" in shard["replay"]:
+        run_time_family(acc, shard["replay"]["time_family"], shard["replay"]["sizes"])
+        return acc.dump()
+    if "time_items" in shard:
+        for name in shard["time_items"]:
+            run_time_family(acc, name, shard["time_sizes"])
+        return acc.dump()
     if "replay" in shard:
         c = shard["replay"]
         run_family(acc, c["family"], c["variant"], c["sizes"])
@@ -358,6 +530,9 @@ def plan(tier, seed):
     rnd.shuffle(items)
     per = 6
     shards = [{"items": items[i : i + per], "nest_sizes": nest_sizes, "flat_sizes": flat_sizes} for i in range(0, len(items), per)]
+    time_sizes = [1000, 2000, 4000, 8000, 16000] if q else [2000, 4000, 8000, 16000, 32000, 64000]
+    for name in list(TIME_FAMILIES) + list(TIME_FILE_FAMILIES):
+        shards.append({"time_items": [name], "time_sizes": time_sizes})
     return {"shards": shards, "shard_timeout": 2400}
 
 
